@@ -1142,7 +1142,12 @@ fn main() {
                                             let vis: syn::Visibility = if from_trait.is_some() { parse_quote! { pub } } else { f2.vis.clone() };
                                             let end_line = f.block.brace_token.span.close().end().line;
                                             let em = emit_fn(Some(ty), from_trait, &vis, &f2.sig, &f2.block, mode, src_path, f.sig.ident.span(), end_line);
-                                            impl_items.push((ty.to_string(), em.text));
+                                            // generic impl blocks keep their header: impl<T: A + B> Ty<T> where ..
+                                            let hdr = if im.generics.params.is_empty() { ty.to_string() } else {
+                                                let (ig, _tg, wc) = im.generics.split_for_impl();
+                                                format!("{} {} {}", ig.to_token_stream(), im.self_ty.to_token_stream(), wc.map(|w| w.to_token_stream().to_string()).unwrap_or_default())
+                                            };
+                                            impl_items.push((hdr, em.text));
                                             out_meta.push(em.meta);
                                             found = true;
                                         }
